@@ -444,6 +444,23 @@ func (c *copier) copy(ctx context.Context, src, srcComponents, target string, ov
 			return errors.Wrap(err, "failed to copy files")
 		}
 	case (fi.Mode() & os.ModeSymlink) == os.ModeSymlink:
+		// a symlink can have several names too (link(2) does not follow)
+		hl, err := getLinkSource(target, fi, c.inodes)
+		if err != nil {
+			return errors.Wrap(err, "failed to get hardlink")
+		}
+		if hl != "" && !validLinkSource(hl, fi) {
+			if inode, ok := getLinkInfo(fi); ok {
+				c.inodes[inode] = target
+			}
+			hl = ""
+		}
+		if hl != "" {
+			if err := os.Link(hl, target); err != nil {
+				return errors.Wrap(err, "failed to create hard link")
+			}
+			break
+		}
 		link, err := os.Readlink(src)
 		if err != nil {
 			return errors.Wrapf(err, "failed to read link: %s", src)
